@@ -160,6 +160,39 @@ class KwPos(ast.NodeTransformer):
         return n
 
 
+class ParamRename(object):
+    """parameters (not self/cls) of private functions and methods renamed p -> p_arg, keyword call sites of those functions in the
+    same module updated"""
+    def run(self, t):
+        renamed = {}
+        for node in ast.walk(t):
+            if isinstance(node, ast.FunctionDef) and node.name.startswith('_') and not node.name.startswith('__'):
+                a = node.args
+                if a.vararg or a.kwarg or a.kwonlyargs:
+                    continue
+                names = [x.arg for x in a.args if x.arg not in ('self', 'cls')]
+                used = set(x.id for x in ast.walk(node) if isinstance(x, ast.Name))
+                mp = dict((n, n + '_arg') for n in names if n + '_arg' not in used)
+                inner = [x for x in ast.walk(node) if isinstance(x, (ast.FunctionDef, ast.Lambda)) and x is not node]
+                if any(set(y.arg for y in i.args.args) & set(mp) for i in inner):
+                    continue
+                for x in a.args:
+                    if x.arg in mp:
+                        x.arg = mp[x.arg]
+                for x in ast.walk(node):
+                    if isinstance(x, ast.Name) and x.id in mp:
+                        x.id = mp[x.id]
+                renamed.setdefault(node.name, []).append(mp)
+        for c in ast.walk(t):
+            if isinstance(c, ast.Call):
+                nm = c.func.id if isinstance(c.func, ast.Name) else (c.func.attr if isinstance(c.func, ast.Attribute) else None)
+                if nm in renamed and len(renamed[nm]) == 1:
+                    for k in c.keywords:
+                        if k.arg in renamed[nm][0]:
+                            k.arg = renamed[nm][0][k.arg]
+        return t
+
+
 class DocStrip(ast.NodeTransformer):
     def _strip(self, node):
         self.generic_visit(node)
@@ -174,7 +207,7 @@ class DocStrip(ast.NodeTransformer):
 
 
 
-KINDS = ('unparse', 'rename', 'docstrip', 'augexpand', 'ifinvert', 'cmpflip', 'extract', 'addpass', 'kwpos')   # 'msgs' exists but two pinned tests compare message text
+KINDS = ('unparse', 'rename', 'docstrip', 'augexpand', 'ifinvert', 'cmpflip', 'extract', 'addpass', 'kwpos')   # 'paramrename' exists as a tool kind; it also renames parameters that other modules pass by keyword, so the pinned suite does not survive it   # 'msgs' exists but two pinned tests compare message text
 
 
 def transform(kind, text):
@@ -204,6 +237,8 @@ def transform(kind, text):
         t = Msgs().visit(t)
     elif kind == 'kwpos':
         t = KwPos().visit(t)
+    elif kind == 'paramrename':
+        t = ParamRename().run(t)
     elif kind != 'unparse':
         raise ValueError(kind)
     ast.fix_missing_locations(t)
